@@ -101,15 +101,21 @@ def replay_best(tuples, SB, SK, viol, samples):
     return n
 
 
+# environments for which rl4co defines multi-start (get_num_starts / select_start_nodes rules)
+MULTISTART_ENVS = ("tsp", "atsp", "cvrp", "cvrptw", "sdvrp", "mtsp", "op", "pctsp", "spctsp", "pdp", "mtvrp", "flp", "mcp")
+
+
 def start_records(tier, seed):
     """env.select_start_nodes on reset batches of the adapters' instance families"""
     from ..envs import registry
 
     recs = []
     for ad in registry.ALL:
-        if not getattr(ad, "multistart", False):
+        if ad.name not in MULTISTART_ENVS or getattr(ad, "no_multistart", False):
             continue
         fam = ad.family("quick", seed)
+        # PDP with force_start_at_depot: the first move is the depot by construction, multi-start is meaningless there
+        fam = [i for i in fam if not i.get("force")]
         groups = {}
         for i in fam:
             groups.setdefault(ad.group_key(i), []).append(i)
@@ -120,6 +126,10 @@ def start_records(tier, seed):
             B = len(insts)
             nact = td["action_mask"].shape[-1]
             mask = [[a + 1 for a in range(nact) if bool(td["action_mask"][b, a])] for b in range(B)]
+            if ad.name not in ("tsp", "atsp", "flp", "mcp"):
+                # environments with a depot: a forced START is a customer; the depot (action 0) only counts
+                # when no customer can be visited at all
+                mask = [[a for a in m if a != 1] or [1] for m in mask]
             kmax = env.get_num_starts(td)
             for k in sorted({2, max(2, kmax // 2), kmax}):
                 if k < 1 or k > kmax:
